@@ -14,5 +14,6 @@ import (
 func init() { hx.Register("C10", Run) }
 
 func Run(c *hx.Ctx) {
+	c03.ModelCheck(c, "C10")
 	c03.RunMany(c, "C10", c.N(700, 2500), 8, true)
 }
